@@ -330,7 +330,7 @@ def corpus_shard(arg):
 
 def run(ctx):
     ctx.map(class_sweep, [0])
-    ctx.map(random_shard, [(s, ctx.pick(400, 8000)) for s in ctx.shard_seeds(16)])
+    ctx.map(random_shard, [(s, ctx.pick(700, 8000)) for s in ctx.shard_seeds(16)])
     ctx.map(corpus_shard, corpus(big=not ctx.quick))
     ctx.exhaustive = True
     ctx.extra["exhaustive_bounds"] = "all classes of _c_ast.cfg x every subset of absent single children x {None, [], 1, 3} per sequence field"
